@@ -1,5 +1,7 @@
 //! C19 bounded: "basis, frame and plane constructions are orthonormal and right-handed", evaluated on the REAL code.
-//! Planes: 6 non-collinear integer point triples, 4 (normal, point) pairs, 4 query points.  Principal axes: 8 point sets
+//! Planes: 6 non-collinear integer point triples, 4 (normal, point) pairs, 4 query points; 7 tilted triangle shapes
+//! scaled to edge lengths 1e-3 and 1e-4 at 4 anchors (containment relative to the edge length).  Large clouds:
+//! SvdBasis3::from_points on deterministic box clouds (extents 1:5:20) of 2047, 2048, 2049, 4096 points.  Principal axes: 8 point sets
 //! in 3D (generic, skew, planar, collinear, coincident; weighted and not) and 4 in 2D, weights from {0.5, 1, 2, 3, 4},
 //! weight scale factors {2, 0.5, 8, 1e-6, 1e-18, 1e18}, the 76 (3D) / 24 (2D) isometries of the C03 bounded check for the
 //! equivariance clause.  Frame constructors: the six try_from_basis_* on 10 x 11 vector pairs (all signed axis pairs,
@@ -77,6 +79,32 @@ fn planes(r: &mut Report) {
             r.check(cp3(&inv.project_point(q), &pr), "inverted_normal keeps the plane in the same position", d);
         }
     }
+}
+
+/// small triangles (edge lengths 1e-3, 1e-4; tilted, far from collinear): the plane contains its defining points
+/// relative to the size of the triangle -- |signed distance| <= 1e-9 * edge (the cross product of two such edges has
+/// norm 1e-6 .. 1e-8: a valid plane, not a degenerate one)
+fn small_planes(r: &mut Report) {
+    let anchors = [p3(0.0, 0.0, 0.0), p3(1.0, 2.0, 3.0), p3(10.0, 10.0, 10.0), p3(-4.0, 0.5, 2.0)];
+    let shapes = [(v3(1.0, 0.0, 0.5), v3(0.0, 1.0, 0.25)), (v3(3.0, -2.0, 2.0), v3(-6.0, -1.0, 4.0)), (v3(0.0, 2.0, 0.0), v3(0.0, 0.0, -1.5)),
+        (v3(0.0, 5.0, 4.0), v3(-4.0, 0.0, 0.0)), (v3(0.0, 1.0, -1.0), v3(1.0, 0.0, -1.0)), (v3(1.0, 0.0, 0.5), v3(0.0, 2.0, 0.25)), (v3(0.6, 0.0, 0.8), v3(0.0, 1.0, 0.0))];
+    for a in anchors.iter() { for (e1, e2) in shapes.iter() { for edge in [1e-3, 1e-4] {
+        r.case();
+        let k = edge / e1.norm().max(e2.norm());
+        let b = a + e1 * k; let c = a + e2 * k;
+        let size = (b - a).norm().max((c - a).norm()).max((c - b).norm());
+        let pl = Plane3::from((a, &b, &c));
+        let d = || format!("Plane3::from(({:?}, {:?}, {:?})) (edge {:e}, |ab x ac| = {:e}): normal {:?}, d {:e}", a.coords.as_slice(), b.coords.as_slice(), c.coords.as_slice(), size, (b - a).cross(&(c - a)).norm(), pl.normal.as_slice(), pl.d);
+        r.check(close(pl.normal.norm(), 1.0), "plane from three points: the normal is a unit vector", d);
+        for p in [a, &b, &c] {
+            r.check(pl.signed_distance_to_point(p).abs() <= E * size, "plane from three points (small triangle) contains its defining points within 1e-9 of the edge length", d);
+            r.check((pl.project_point(p) - p).norm() <= E * size, "plane from three points (small triangle) projects its defining points onto themselves within 1e-9 of the edge length", d);
+        }
+        let n = (b - a).cross(&(c - a)).normalize();
+        r.check((pl.normal.into_inner() - n).norm() <= 1e-6, "plane from three points (small triangle): the normal is along (p2 - p1) x (p3 - p1)", d);
+        let q = a + (e1 + e2) * (k / 3.0) + n * (0.5 * edge);
+        r.check((pl.signed_distance_to_point(&q) - 0.5 * edge).abs() <= 1e-6 * edge, "plane from three points (small triangle): a point half an edge above the centroid has signed distance half an edge", d);
+    } } }
 }
 
 // ------------------------------------------------------------------------------------------------ principal axes
@@ -181,6 +209,55 @@ fn svd3(r: &mut Report) {
                 if sv_separated(&b.sv, i) { r.check(same_up_to_sign3(&bm.basis[i], &(t * b.basis[i])), "principal axes: the basis vectors rotate (up to sign) with a rigid motion of the points", || format!("{} axis {}", dt(), i)); }
             }
             r.check(bm.rank(1e-9 * (1.0 + bm.sv[0])) == s.rank, "principal axes: the rank is invariant under a rigid motion of the points", dt);
+        }
+    }
+}
+/// deterministic box clouds: n points uniform (64-bit LCG, top 53 bits) in a box with extents 1 : 5 : 20 along x, y, z
+/// (smallest extent FIRST, so that an unsorted decomposition shows) around (3, -2, 7)
+fn lcg_cloud(n: usize) -> Vec<Point3> {
+    let mut state: u64 = 0x9E37_79B9_7F4A_7C15;
+    let mut next = move || { state = state.wrapping_mul(6364136223846793005).wrapping_add(1442695040888963407); (state >> 11) as f64 / (1u64 << 53) as f64 - 0.5 };
+    (0..n).map(|_| { let (u, v, w) = (next(), next(), next()); p3(3.0 + u, -2.0 + 5.0 * v, 7.0 + 20.0 * w) }).collect()
+}
+fn svd_large(r: &mut Report) {
+    let isos = isos3();
+    for n in [2047usize, 2048, 2049, 4096] {
+        let pts = lcg_cloud(n);
+        for weighted in [false, true] {
+            r.case();
+            let wv: Vec<f64> = (0..n).map(|i| [1.0, 2.0, 0.5, 4.0][i % 4]).collect();
+            let w: Option<&[f64]> = if weighted { Some(&wv) } else { None };
+            let d = || format!("SvdBasis3::from_points(box cloud 1 x 5 x 20, n = {}, {})", n, if weighted { "weights 1, 2, 0.5, 4 repeating" } else { "no weights" });
+            let b = SvdBasis3::from_points(&pts, w);
+            let c = wmean3(&pts, w);
+            r.check(cp3(&b.center, &c), "principal axes: the centre is the (weighted) mean", d);
+            r.check(b.n == n, "principal axes: n is the number of points", d);
+            basis_checks3(r, &b, &d);
+            r.check(b.sv[0] > b.sv[1] && b.sv[1] > b.sv[2], "principal axes (box cloud 1:5:20): singular values strictly decreasing", || format!("{} sv = {:?}", d(), b.sv));
+            r.check(same_up_to_sign3(&b.basis[0], &v3(0.0, 0.0, 1.0)) || b.basis[0].z.abs() > 0.99, "principal axes (box cloud 1:5:20): the first axis is the long direction of the box", || format!("{} basis = {:?}", d(), b.basis));
+            r.check(b.basis[2].x.abs() > 0.99, "principal axes (box cloud 1:5:20): the last axis is the short direction of the box", || format!("{} basis = {:?}", d(), b.basis));
+            let var = b.basis_variances();
+            for i in 0..3 {
+                let along: f64 = pts.iter().enumerate().map(|(k, p)| { let wk = w.map_or(1.0, |w| w[k]); (wk * b.basis[i].dot(&(p - c))).powi(2) }).sum::<f64>() / n as f64;
+                r.check((b.sv[i].powi(2) / n as f64 - along).abs() <= E * (1.0 + along) && (var[i] - along).abs() <= E * (1.0 + along), "principal axes: sv^2 / n equals the variance of the (weighted) centred points along each axis", || format!("{} axis {}: sv^2/n = {}, variance {}", d(), i, b.sv[i].powi(2) / n as f64, along));
+            }
+            r.check(b.rank(1e-9 * (1.0 + b.sv[0])) == 3, "principal axes: the rank reflects the dimension of the point set", d);
+            r.check(cv3(&b.largest().into_inner(), &b.basis[0]) && cv3(&b.smallest().into_inner(), &b.basis[2]), "principal axes: largest / smallest are the first / last basis vector", d);
+            for q in [p3(1.0, 2.0, 3.0), pts[0], pts[n - 1]].iter() {
+                r.check(cp3(&b.point_from_basis(&b.point_to_basis(q)), q) && cp3(&b.point_to_basis(&b.point_from_basis(q)), q), "principal axes: point_from_basis(point_to_basis(p)) == p", || format!("{} point {:?}", d(), q.coords.as_slice()));
+            }
+            // equivariance: every 5th isometry of the family (identity, quarter turns, general rotations, translations)
+            for it in isos.iter().step_by(if weighted { 15 } else { 5 }) { let t = &it.t;
+                let moved: Vec<Point3> = pts.iter().map(|p| t * p).collect();
+                let bm = SvdBasis3::from_points(&moved, w);
+                let dt = || format!("{} {}", d(), it.name);
+                r.check(cp3(&bm.center, &(t * b.center)), "principal axes: the centre moves with a rigid motion of the points", dt);
+                basis_checks3(r, &bm, &dt);
+                for i in 0..3 {
+                    r.check((bm.sv[i] - b.sv[i]).abs() <= E * (1.0 + b.sv[0]), "principal axes: singular values are invariant under a rigid motion of the points", || format!("{}: {:?} vs {:?}", dt(), bm.sv, b.sv));
+                    r.check(same_up_to_sign3(&bm.basis[i], &(t * b.basis[i])), "principal axes: the basis vectors rotate (up to sign) with a rigid motion of the points", || format!("{} axis {}", dt(), i));
+                }
+            }
         }
     }
 }
@@ -347,9 +424,11 @@ fn frames(r: &mut Report) {
 }
 
 pub fn run() -> Option<Report> {
-    let mut r = Report::new("planes: 6 non-collinear point triples, 4 (normal, point) pairs / surface points, 4 queries; principal axes: 8 point sets in 3D (generic, skew, planar, collinear, coincident; weights from {0.5..4}) and 4 in 2D, weight scale factors {2, 0.5, 8, 1e-6, 1e-18, 1e18}, 76 (3D) / 24 (2D) isometries (quarter turns, 30/45 degrees, general axis, translations up to 1000); singular vectors compared up to sign and only where singular values are separated by > 1e-3 of the largest; frame constructors: six try_from_basis_* x 10 first x 11 second arguments (all signed axis pairs, skew, unequal lengths, one nearly parallel pair at 1e-3) x 3 origins, 12 parallel / zero pairs each (6 of them parallel along directions that are not exactly representable); iso3_from_xyo / iso3_from_basis / iso2_from_basis / Iso3::from(&SvdBasis3); all comparisons to 1e-9");
+    let mut r = Report::new("planes: 6 non-collinear point triples, 4 (normal, point) pairs / surface points, 4 queries, and 7 tilted triangle shapes scaled to edge lengths 1e-3 and 1e-4 at 4 anchor points (containment within 1e-9 of the edge); principal axes: box clouds of n in {2047, 2048, 2049, 4096} LCG points with extents 1:5:20 (unweighted and with weights 1,2,0.5,4 repeating; every 5th / 15th isometry of the family); 8 point sets in 3D (generic, skew, planar, collinear, coincident; weights from {0.5..4}) and 4 in 2D, weight scale factors {2, 0.5, 8, 1e-6, 1e-18, 1e18}, 76 (3D) / 24 (2D) isometries (quarter turns, 30/45 degrees, general axis, translations up to 1000); singular vectors compared up to sign and only where singular values are separated by > 1e-3 of the largest; frame constructors: six try_from_basis_* x 10 first x 11 second arguments (all signed axis pairs, skew, unequal lengths, one nearly parallel pair at 1e-3) x 3 origins, 12 parallel / zero pairs each (6 of them parallel along directions that are not exactly representable); iso3_from_xyo / iso3_from_basis / iso2_from_basis / Iso3::from(&SvdBasis3); all comparisons to 1e-9");
     planes(&mut r);
+    small_planes(&mut r);
     svd3(&mut r);
+    svd_large(&mut r);
     svd2(&mut r);
     frames(&mut r);
     Some(r)
